@@ -10,9 +10,11 @@
     residuals      : `A x0 − b` with the ORIGINAL `A`, `b` (and `x0`, not `x`);
     solve_x        : `defect = 0 → x = x0`; else kernel columns from the zero pivots,
                      Gram–Schmidt over `min_x_list` (`pivot < s_tol → BadRegularization`);
-    q0_xx          : full-inverse column (inside the envelope the C++ reads the sparse inverse
-                     `Envelope::inverse`, modelled by `Env.invRec`; same value in exact
-                     arithmetic — `Lemmas/Ls/EnvInverse.lean`);
+    q0_xx          : full-inverse column `solve(e_max)[min]` as the C++ computes it outside the
+                     envelope.  Inside the envelope the C++ reads the sparse inverse
+                     `Envelope::inverse` (dense restatement: `Env.invRec`/`Env.zEntry`); in exact
+                     arithmetic both are `L⁻ᵀD⁺L⁻¹` — MODELLED (compared on every index pair by
+                     the C03 correspondence, max deviation 5e-15; `example`s in Props/C03/Env.lean);
     q_xx           : regular → `q0_xx`; singular → `solve_x` (may throw), `Σ a_k/d_k·b_k`;
     q_bb           : `ã_i · solve(ã_jᵀ)` (both C++ branches);
     q_bx           : throws `Exception::BadRegularization` ("q_bx not implemented");
